@@ -143,6 +143,10 @@ struct Job {
     /// definite-assignment part of the CFG monitor applies to every local
     #[serde(default)]
     defassign: bool,
+    /// read the document from this file (source is ignored) and populate the directory
+    /// modules reachable from it, the way generate-ui does
+    #[serde(default)]
+    path: Option<String>,
 }
 
 fn default_type_name() -> String {
@@ -230,7 +234,7 @@ fn mode_of(s: &str) -> Option<DynamicBindingHandling> {
 fn cmd_translate(args: &[String]) -> io::Result<()> {
     install_panic_hook();
     let classes = load_classes(&type_paths(args))?;
-    let type_map = make_type_map(classes);
+    let type_map = make_type_map(classes.clone());
     let mk = |m| {
         BuildContext::prepare(&type_map, FileNameRules::default(), m)
             .map_err(|e| io::Error::other(e.to_string()))
@@ -249,6 +253,46 @@ fn cmd_translate(args: &[String]) -> io::Result<()> {
         // announce the job first: if the process dies inside it, the driver knows which one
         writeln!(out, "{}", json!({"begin": job.id}))?;
         out.flush()?;
+        if let Some(path) = &job.path {
+            // fresh type map: directory modules are inserted into it
+            let path = Utf8PathBuf::from(path);
+            let mut tm = make_type_map(classes.clone());
+            let mut docs_cache = qmluic::qmldoc::UiDocumentsCache::new();
+            let mut pd = qmluic::diagnostic::ProjectDiagnostics::new();
+            let populated = panic::catch_unwind(AssertUnwindSafe(|| {
+                qmluic::qmldir::populate_directories(&mut tm, &mut docs_cache, [&path], &mut pd)
+                    .map_err(|e| e.to_string())
+            }));
+            match populated {
+                Ok(Ok(())) => {}
+                Ok(Err(e)) => {
+                    writeln!(out, "{}", json!({"id": job.id, "mode": "-", "rep": 0, "populate_error": e}))?;
+                    continue;
+                }
+                Err(_) => {
+                    writeln!(out, "{}", json!({"id": job.id, "mode": "-", "rep": 0, "panic": format!("populate: {}", take_panic().unwrap_or_default())}))?;
+                    continue;
+                }
+            }
+            let doc = match docs_cache.get(&path) {
+                Some(d) => d.clone(),
+                None => {
+                    writeln!(out, "{}", json!({"id": job.id, "mode": "-", "rep": 0, "populate_error": "document not loaded"}))?;
+                    continue;
+                }
+            };
+            for rep in 0..job.reps {
+                for m in &job.modes {
+                    let mode = mode_of(m).ok_or_else(|| io::Error::other("bad mode"))?;
+                    let ctx = BuildContext::prepare(&tm, FileNameRules::default(), mode)
+                        .map_err(|e| io::Error::other(e.to_string()))?;
+                    let v = run_one(&ctx, Some(&doc), &job, m, rep);
+                    writeln!(out, "{}", v)?;
+                }
+            }
+            out.flush()?;
+            continue;
+        }
         for rep in 0..job.reps {
             for m in &job.modes {
                 let mode = mode_of(m).ok_or_else(|| io::Error::other("bad mode"))?;
@@ -257,7 +301,7 @@ fn cmd_translate(args: &[String]) -> io::Result<()> {
                     DynamicBindingHandling::Reject => &ctx_rej,
                     DynamicBindingHandling::Omit => &ctx_omit,
                 };
-                let v = run_one(ctx, &job, m, rep);
+                let v = run_one(ctx, None, &job, m, rep);
                 writeln!(out, "{}", v)?;
             }
         }
@@ -270,15 +314,17 @@ fn wants(job: &Job, what: &str) -> bool {
     job.want.iter().any(|w| w == what)
 }
 
-fn run_one(ctx: &BuildContext, job: &Job, mode: &str, rep: usize) -> Value {
+fn run_one(ctx: &BuildContext, preloaded: Option<&UiDocument>, job: &Job, mode: &str, rep: usize) -> Value {
     let t0 = thread_cpu_ms();
     let mut res = json!({"id": job.id, "mode": mode, "rep": rep});
-    let src_len = job.source.len();
 
     // ---- parse
-    let parsed = panic::catch_unwind(AssertUnwindSafe(|| {
-        UiDocument::parse(job.source.clone(), job.type_name.clone(), None)
-    }));
+    let parsed = match preloaded {
+        Some(d) => Ok(d.clone()),
+        None => panic::catch_unwind(AssertUnwindSafe(|| {
+            UiDocument::parse(job.source.clone(), job.type_name.clone(), None)
+        })),
+    };
     let doc = match parsed {
         Ok(d) => d,
         Err(_) => {
@@ -287,6 +333,8 @@ fn run_one(ctx: &BuildContext, job: &Job, mode: &str, rep: usize) -> Value {
             return res;
         }
     };
+    let source_text: String = doc.source().to_owned();
+    let src_len = source_text.len();
     let has_syntax_error = doc.has_syntax_error();
     res["has_syntax_error"] = json!(has_syntax_error);
 
@@ -294,7 +342,7 @@ fn run_one(ctx: &BuildContext, job: &Job, mode: &str, rep: usize) -> Value {
     let mut check_range = |what: &str, s: usize, e: usize| {
         if s > e || e > src_len {
             range_alarms.push(format!("{what}: range {s}..{e} outside source of {src_len} bytes"));
-        } else if !job.source.is_char_boundary(s) || !job.source.is_char_boundary(e) {
+        } else if !source_text.is_char_boundary(s) || !source_text.is_char_boundary(e) {
             range_alarms.push(format!("{what}: range {s}..{e} not on character boundaries"));
         }
     };
